@@ -120,7 +120,35 @@ func runC04(t *testing.T, e *worlds.Env, tier string) (bool, any) {
 				layer4.VerifNewRoute([]layer4.MatcherSet{{never}}, []layer4.NextHandler{drain}),
 			}
 		}
-		switch tp.Weighted("input", 2, 2, 5, 3) {
+		switch tp.Weighted("input", 2, 2, 5, 3, 2) {
+		case 4:
+			// short line-structured input: k filler bytes, then CR LF / LF at every small
+			// offset (boundary values of "find the first line end" arithmetic), optionally
+			// a keyword of the target protocol spliced in
+			k := tp.Choose(24, "line-k")
+			fill := byte(tp.Pick("line-fill", 'A', ' ', '/', 0))
+			for i := 0; i < k; i++ {
+				msg = append(msg, fill)
+			}
+			if v := p.Valid(tp, !udp); tp.Prob(1, 2, "line-kw") && len(v) > 0 {
+				n := tp.Choose(min(len(v), 12)+1, "line-kw-n")
+				at := tp.Choose(len(msg)+1, "line-kw-at")
+				msg = append(msg[:at:at], append(append([]byte(nil), v[:n]...), msg[at:]...)...)
+				if len(msg) > k && k > 0 {
+					msg = msg[:k]
+				}
+			}
+			switch tp.Choose(4, "line-end") {
+			case 0:
+				msg = append(msg, '\r', '\n')
+			case 1:
+				msg = append(msg, '\n')
+			case 2:
+				msg = append(msg, '\r', '\n', '\r', '\n')
+			default:
+				msg = append(msg, '\r')
+			}
+			sample.Input = "short-lines"
 		case 0:
 			msg = gen.RandomBytes(tp, 3000)
 			sample.Input = "random"
